@@ -1124,7 +1124,8 @@ func c01Crash(c *Ctx, idx int) CaseResult {
 	r := gen.Rand(c.Seed, "C01crash", idx)
 	g := gen.Base()
 	g.MaxBlocks, g.MaxSeqs, g.MaxActions = 3, 3, 3
-	g.MaxRetries, g.PTransient = 0, 0
+	// retry budgets and retryable failures: recovery has to tell "failed so far" from "succeeded"
+	g.MaxRetries, g.PTransient = 2, 0.3
 	g.PFailCont = 0
 	g.PCont, g.PBCont = 0.2, 0.2
 	g.SleepUS = [2]int{0, 1500}
